@@ -1,6 +1,7 @@
 import VOPyVerif.Proofs.AccuracyRegions
 import VOPyVerif.Proofs.AccuracyAuerGeom
 import VOPyVerif.Proofs.IntegrationReal
+import VOPyVerif.Proofs.StepsCongr
 /-!
 # C01 — valid confidence regions imply an ε-accurate Pareto set (PaVeBa family, Auer)
 
@@ -956,5 +957,74 @@ example :
   refine ⟨fun d => by split_ifs <;> linarith, fun d => ?_⟩
   push_cast
   constructor <;> split_ifs <;> norm_num
+
+end VOPy.C01
+
+/-! # INVARIANCE — translation twins of whole runs
+
+`translation_twin_check` of the harness runs every history a second time with all values translated by
+a large common vector and demands the identical trajectory `(S, P, U)`.  Stated once for the model: the
+rounds consult their oracles only on the designs `0 … K−1`, so two runs whose oracles agree there are
+identical; for the executable core it suffices that the two geometry predicates are invariant under
+the transformation of the regions (the invariance theorems of C09 / C10 / C11); Auer's rules are
+computed from differences of centres inside `Steps.lean` and are invariant outright. -/
+namespace VOPy.C01
+open VOPy VOPy.Steps VOPy.Accuracy
+
+/-- **Twin runs of the PaVeBa family.**  If the oracles of two runs agree on all pairs of designs `< K`
+in every round `< T` (e.g. because the geometry predicates are translation invariant and the second
+run displays the translated regions), the trajectories `(S, P, U)` are identical up to round `T`. -/
+theorem paveba_translation_twin (K : Nat) (isDom isDom' isCov isCov' : Nat → Rel) (T : Nat)
+    (h : ∀ r, r < T → ∀ i, i < K → ∀ j, j < K →
+      isDom' r i j = isDom r i j ∧ isCov' r i j = isCov r i j) :
+    ∀ t, t ≤ T → pavebaRun K isDom' isCov' t = pavebaRun K isDom isCov t :=
+  pavebaRun_congr K isDom isDom' isCov isCov' T h
+
+/-- **Twin runs of the executable core.**  Let `Tr` transform regions (a translation by a common
+vector, say) and let the two computed oracles be invariant under `Tr` on well-formed regions (`ok`).
+Then the core on the transformed displayed regions visits the same `(S, P, U)` in every round. -/
+theorem paveba_core_translation_twin {ρ : Type} (Tr : ρ → ρ) (ok : ρ → Prop) (dom cov : ρ → ρ → Bool)
+    (hd : ∀ a b, ok a → ok b → dom (Tr a) (Tr b) = dom a b)
+    (hc : ∀ a b, ok a → ok b → cov (Tr a) (Tr b) = cov a b)
+    (K : Nat) (init : Nat → ρ) (fresh : Nat → Nat → ρ)
+    (hinit : ∀ i, ok (init i)) (hfresh : ∀ r i, ok (fresh r i)) (t : Nat) :
+    (Core.pavebaCore K dom cov (fun i => Tr (init i)) (fun r i => Tr (fresh r i)) t).S =
+      (Core.pavebaCore K dom cov init fresh t).S ∧
+    (Core.pavebaCore K dom cov (fun i => Tr (init i)) (fun r i => Tr (fresh r i)) t).P =
+      (Core.pavebaCore K dom cov init fresh t).P ∧
+    (Core.pavebaCore K dom cov (fun i => Tr (init i)) (fun r i => Tr (fresh r i)) t).U =
+      (Core.pavebaCore K dom cov init fresh t).U := by
+  obtain ⟨h1, h2, h3, _, _⟩ := Core.pavebaCore_map Tr ok dom cov hd hc K init fresh hinit hfresh t
+  exact ⟨h1, h2, h3⟩
+
+/-- **Auer's trajectory is translation invariant** — no hypothesis about oracles: for centres of the
+designs `< K` of the length of `t`, translating every displayed centre by `t` (widths untouched) gives
+the identical `(S, P)` in every round: `m(i,j)` and `M(i,j)` see differences of centres only. -/
+theorem auer_translation_twin (K : Nat) (eps : Rat) (centre width : Nat → Nat → Vec) (t : Vec) (T : Nat)
+    (h : ∀ r, r < T → ∀ i, i < K → (centre r i).length = t.length) :
+    ∀ k, k ≤ T →
+      auerRun K eps (fun r i => vadd (centre r i) t) width k = auerRun K eps centre width k :=
+  auerRun_translate K eps centre width t T h
+
+/-- non-vacuity: the Auer example above next to the offset `(2^20, −2^20)` — evaluated, and as an
+instance of the theorem -/
+example :
+    auerRun 3 (1/2) (fun _ i => vadd (exMu i) [1048576, -1048576]) (fun _ _ => [1/4, 1/4]) 1 = ([], [1, 2]) ∧
+    auerRun 3 (1/2) (fun _ i => vadd (exMu i) [1048576, -1048576]) (fun _ _ => [1/4, 1/4]) 1 =
+      auerRun 3 (1/2) (fun _ => exMu) (fun _ _ => [1/4, 1/4]) 1 :=
+  ⟨by decide +kernel,
+   auer_translation_twin 3 (1/2) (fun _ => exMu) (fun _ _ => [1/4, 1/4]) [1048576, -1048576] 1
+     (by intro r _ i hi; interval_cases i <;> rfl) 1 (le_refl _)⟩
+
+/-- non-vacuity of `paveba_translation_twin`: oracles that differ from `exDom` / `exCov` only outside
+the designs `0, 1, 2` give the same run -/
+example :
+    pavebaRun 3 (fun r i j => exDom r i j || decide (3 ≤ i)) (fun r i j => exCov r i j && decide (j < 3)) 1 =
+      pavebaRun 3 exDom exCov 1 :=
+  paveba_translation_twin 3 exDom _ exCov _ 1
+    (fun r _ i hi j hj => by
+      have h1 : decide (3 ≤ i) = false := by simp; omega
+      have h2 : decide (j < 3) = true := by simp; omega
+      simp [h1, h2]) 1 (le_refl _)
 
 end VOPy.C01
